@@ -68,6 +68,20 @@ def run(ctx):
     pick4.sort(key=lambda b: (len({(o["side"], o["id"]) for o in b["ops"] if o["op"] == "write"}),
                               sum(1 for o in b["ops"] if o["op"] == "write" and o["id"].endswith("tomb"))))
     scheds += pick4[:n4]
+    # one point written once while the link is up and twice during the outage, every write of a side with the same
+    # content: a side is asked to store what it already holds with a newer time
+    g5 = vlib.run_tlc(ctx.sc, "Gen_Sync", "Gen_Sync_rewrite.cfg", collect_json=True, workers=1, timeout=3000)   # all of them (BFS)
+    seen5, pick5 = set(), []
+    for b in g5.lines:
+        k = tuple((o["op"], o["side"], o["how"]) for o in b["ops"])
+        if k not in seen5:
+            seen5.add(k)
+            pick5.append(b)
+    def rewrites(b):   # the side that wrote before the outage writes again after the other side did
+        w = [o["side"] for o in b["ops"] if o["op"] == "write"]
+        return len(w) == 3 and w[0] == w[2] != w[1]
+    pick5.sort(key=lambda b: (not rewrites(b), next(o["how"] for o in b["ops"] if o["op"] == "down") == "restart"))
+    scheds += pick5[:4 if t == "quick" else len(pick5)]
     p = ctx.sc.path("c02.jsonl")
     with open(p, "w") as f:
         for s in scheds:
